@@ -556,7 +556,7 @@ func c34SealedInner() *explore.Scenario {
 }
 
 func c34Scenarios(thorough bool) []*explore.Scenario {
-	return []*explore.Scenario{c34Hellos(thorough), c34Flights(), c34TwoHellos(), c34SealedInner(), c34ShortProtectedRecords(), c34PSKShapes()}
+	return []*explore.Scenario{c34Hellos(thorough), c34Flights(), c34TwoHellos(), c34SealedInner(), c34ShortProtectedRecords(), c34PSKShapes(), c34KeyUpdateReplyFails()}
 }
 
 func init() {
@@ -782,4 +782,66 @@ func alpnListBody(protos ...string) []byte {
 		l = append(l, p...)
 	}
 	return append([]byte{byte(len(l) >> 8), byte(len(l))}, l...)
+}
+
+// c34KeyUpdateReplyFails — an established TLS 1.3 connection; the client sends KeyUpdate(update_requested)
+// and then data, while the server's transport has started to fail writes (the client reset the connection
+// or stopped reading). The server's Read must return — the data, or an error — and a later Close must return.
+func c34KeyUpdateReplyFails() *explore.Scenario {
+	ids := []tls.ClientHelloID{tls.HelloGolang, tls.HelloChrome_Auto, tls.HelloFirefox_Auto}
+	return &explore.Scenario{
+		Name:     "key-update-reply-cannot-be-written",
+		Watchdog: 30 * time.Second, HangSig: "C34|hang|key-update-reply-write-fails",
+		Run: func(x *explore.X) (r explore.Result) {
+			id := ids[x.Choose("client", len(ids))]
+			requested := x.Choose("update-requested", 2) == 1
+			failing := x.Choose("server-writes-fail", 2) == 1
+			what := fmt.Sprintf("%s: client KeyUpdate(update_requested=%v) then 5 bytes; server transport writes fail=%v", id.Client, requested, failing)
+			ready, finished := make(chan struct{}), make(chan struct{})
+			buf := make([]byte, 16)
+			var n int
+			var err, cerr error
+			var spanic string
+			hs := peer.Run(peer.ClientConfig("example.com"), id, peer.ServerConfig(), peer.Opts{KeepOpen: true,
+				ServerAfter: func(s *tls.Conn) error {
+					defer close(finished)
+					<-ready
+					spanic = catch(func() {
+						n, err = s.Read(buf)
+						cerr = s.Close()
+					})
+					return nil
+				}})
+			defer hs.Finish()
+			if !hs.OK() || hs.S.ConnectionState().Version != tls.VersionTLS13 {
+				close(ready)
+				r.Obs = "no-tls13-handshake"
+				return
+			}
+			r.Nontrivial = true
+			r.Class = what
+			hs.SE.FailWrites = failing
+			if e := tls.VerifSendKeyUpdate(hs.U.Conn, requested); e != nil {
+				close(ready)
+				r.Violate("INFRA|c34-keyupdate", "%s: %v", what, e)
+				return
+			}
+			if _, e := hs.U.Write([]byte("hello")); e != nil {
+				close(ready)
+				r.Violate("INFRA|c34-write", "%s: %v", what, e)
+				return
+			}
+			close(ready)
+			<-finished // a server call that never returns is reported by the scenario's watchdog
+			if spanic != "" {
+				r.Violate("C34|server-panic|key-update", "%s: %s", what, truncStr(spanic, 300))
+				return
+			}
+			if err == nil && string(buf[:n]) != "hello" {
+				r.Violate("C34|key-update|data-differs", "%s: server read %q", what, buf[:n])
+			}
+			r.Obs = fmt.Sprintf("read=%d/%s|close=%s", n, errClass(err), errClass(cerr))
+			return
+		},
+	}
 }
